@@ -174,6 +174,18 @@ class State:
     def write_tree(self, root, path, tree):
         d = self.mem.setdefault(root, {})
         n = len(path)
+        for k, e in enumerate(path):
+            # a store into one element of an array/slice: every other element pseudo-field that is not provably a
+            # different element (two distinct constant indexes from the start) may alias it
+            if e[0] == "f" and isinstance(e[1], str) and e[1][:1] in "#[":
+                mine = _const_index(e[1])
+                for p in [p for p in d if len(p) > k and p[:k] == path[:k] and p[k] != e and p[k][0] == "f"
+                          and isinstance(p[k][1], str) and p[k][1][:1] in "#["]:
+                    other = _const_index(p[k][1])
+                    if mine is not None and other is not None and mine != other:
+                        continue
+                    del d[p]
+                    d[p[:k + 1]] = TOP
         for p in [p for p in d if len(p) >= n and p[:n] == path]:
             del d[p]
         for rp, l in tree.items():
@@ -186,6 +198,12 @@ class State:
 
     def drop_root(self, root):
         self.mem.pop(root, None)
+
+
+def _const_index(name):
+    if name.startswith("#") and name[1:].isdigit():
+        return int(name[1:])
+    return None
 
 
 def leaf_tree(leaf):
@@ -216,6 +234,20 @@ class Outcome:
 
 
 # ------------------------------------------------------------------------------ interpreter
+
+def _subst(x, table):
+    if isinstance(x, tuple):
+        if x in table:
+            return table[x]
+        ch = False
+        out = []
+        for y in x:
+            z = _subst(y, table) if isinstance(y, tuple) else y
+            ch = ch or (z is not y)
+            out.append(z)
+        return tuple(out) if ch else x
+    return x
+
 
 class Interp:
     def __init__(self, prog, axioms=None, opaque=(), event_hook=None, max_depth=10,
@@ -314,8 +346,26 @@ class Interp:
                 path = path + (("f", e["name"]),)
             elif k == "downcast":
                 path = path + (("v", e["variant"]),)
-            elif k in ("index", "constindex", "subslice"):
-                path = path + (("f", "[]"),)
+            elif k == "constindex":
+                # one pseudo-field per element: facts about element i say nothing about element j
+                if not e.get("from_end"):
+                    path = path + (("f", "#%d" % e["offset"]),)
+                else:
+                    base = st.read_leaf(root, path)
+                    if base[0] == "array":
+                        path = path + (("f", "#%d" % (base[1] - e["offset"])),)
+                    else:
+                        path = path + (("f", "#-%d" % e["offset"]),)
+            elif k == "index":
+                iv = st.read_leaf(self.local_root(fr, e["local"]), ())
+                if iv[0] == "int":
+                    path = path + (("f", "#%d" % iv[1]),)
+                elif iv[0] == "term":
+                    path = path + (("f", "[%r]" % (iv[1],)),)
+                else:
+                    path = path + (("f", "[]"),)
+            elif k == "subslice":
+                path = path + (("f", "[%d..%s%d]" % (e["from"], "-" if e.get("from_end") else "", e["to"])),)
             else:
                 pass
         return root, path
@@ -351,6 +401,25 @@ class Interp:
         st.facts = rs.facts
         return res[0].ret
 
+    def const_value(self, st, cb):
+        """value of a small local array constant: its initialiser is evaluated once per state"""
+        uid = ("K", cb.id)
+        root0 = ("L", uid, 0)
+        if root0 in st.mem:
+            return st.read_tree(root0, ())
+        sub = State()
+        sub.mem = st.mem
+        sub.facts = st.facts
+        sub.frames = [Frame(cb, uid)]
+        res = self.explore(sub)
+        if len(res) != 1 or res[0].kind != "return":
+            return leaf_tree(("named", cb.short))
+        rs = res[0].state
+        st.mem = rs.mem
+        st.facts = rs.facts
+        st.write_tree(root0, (), res[0].ret)
+        return res[0].ret
+
     def eval_operand(self, st, fr, op):
         k = op["k"]
         if k in ("copy", "move"):
@@ -373,6 +442,9 @@ class Interp:
                     return leaf_tree(("ref", root, ()))
                 return leaf_tree(("bytes", b))
             if "def_path" in op:
+                cb = getattr(self.prog, "const_bodies", {}).get(short(op["def_path"]))
+                if cb is not None:
+                    return self.const_value(st, cb)
                 return leaf_tree(("named", short(op["def_path"])))
             if op["ty"] == "()":
                 return leaf_tree(UNIT)
@@ -682,15 +754,7 @@ class Interp:
             # widening (at loop heads): anything that changed since the previous visit becomes unknown
             prev = st.loopmem.get(key)
             if prev is not None:
-                for root, d in st.mem.items():
-                    pd = prev.get(root)
-                    if pd is None:
-                        continue
-                    for p, l in list(d.items()):
-                        if p in pd and pd[p] != l and l[0] in ("int", "term"):
-                            if p and p[-1] == ("f", "@idx") and l[0] == "int":
-                                continue    # cursor of a by-value iterator over a fixed small array: bounded by its length
-                            d[p] = self.widen_leaf(st, key, root, p, pd[p], l)
+                self.widen_state(st, key, prev)
             st.loopmem[key] = {r: dict(d) for r, d in st.mem.items()}
         elif n >= 2 and is_head:
             st.loopmem[key] = {r: dict(d) for r, d in st.mem.items()}
@@ -784,6 +848,80 @@ class Interp:
                     d[p] = TOP
         return ("term", atom)
 
+    def widen_state(self, st, key, prev):
+        """loop-head widening of everything that changed since the previous visit.
+
+        Guess-and-check of two relational invariants, both re-examined at the next visit (a guess that is not inductive
+        shows up as a changed leaf again and is then widened on its own):
+          * leaves that held the same value at the previous visit and hold the same value now share ONE fresh atom W;
+          * a leaf whose previous value was F(previous value of W's variable) and whose value now is F(its value now)
+            becomes F(W)  (e.g. the length `len - i` of a slice `&s[i..]` carried along with `i`).
+        A leaf created during this iteration that mentions the value now of W's variable is expressed over W as well.
+        Anything else that still mentions a re-used atom refers to its previous incarnation and becomes unknown."""
+        changed = []
+        for root, d in st.mem.items():
+            pd = prev.get(root)
+            if pd is None:
+                continue
+            for p, l in d.items():
+                if p in pd and pd[p] != l and l[0] in ("int", "term"):
+                    if p and p[-1] == ("f", "@idx") and l[0] == "int":
+                        continue    # cursor of a by-value iterator over a fixed small array: bounded by its length
+                    changed.append((root, p, pd[p], l))
+        if not changed:
+            return
+
+        def size(t):
+            return 1 + sum(size(x) for x in t if isinstance(x, tuple)) if isinstance(t, tuple) else 1
+        changed.sort(key=lambda c: (size(c[3]), repr(c[0]), repr(c[1])))
+        groups = {}          # (old, new) -> W
+        sub_old, sub_new = {}, {}
+        processed = set()
+        atoms = set()
+        before = {}
+        for root, d in st.mem.items():
+            for p, l in d.items():
+                if l[0] == "term" and "widen" in repr(l):
+                    before[(root, p)] = l
+        for root, p, old, new in changed:
+            processed.add((root, p))
+            g = groups.get((old, new))
+            if g is not None:
+                st.mem[root][p] = g
+                continue
+            if sub_new and new[0] == "term" and old[0] == "term":
+                so, sn = _subst(old, sub_old), _subst(new, sub_new)
+                if so == sn and sn != new:
+                    st.mem[root][p] = sn
+                    continue
+            w_ = self.widen_leaf(st, key, root, p, old, new)
+            st.mem[root][p] = w_
+            if w_ != TOP:
+                atoms.add(w_)
+                groups[(old, new)] = w_
+                if new[0] == "term" and new[1][0] != "in" and old[0] == "term" and old[1][0] != "in" and old != w_:
+                    sub_old[old] = w_
+                    sub_new[new] = w_
+                elif new[0] == "term" and new[1][0] != "in" and old == w_:
+                    sub_new[new] = w_
+                    sub_old[old] = w_
+        # leaves created during this iteration
+        if sub_new:
+            for root, d in st.mem.items():
+                pd = prev.get(root) or {}
+                for p, l in list(d.items()):
+                    if (root, p) not in processed and p not in pd and l[0] == "term":
+                        nl = _subst(l, sub_new)
+                        if nl != l:
+                            d[p] = nl
+                            processed.add((root, p))
+        # stale mentions of a re-incarnated atom
+        for (root, p), l in before.items():
+            if (root, p) in processed:
+                continue
+            if st.mem.get(root, {}).get(p) == l and any(self.mentions(l, a) for a in atoms):
+                st.mem[root][p] = TOP
+
     def widen_leaf(self, st, key, root, p, old, new):
         """widening with thresholds: the changed value becomes a fresh atom W (one per loop head and
         location); upper bounds (slice lengths) that hold for both the old and the new value are kept"""
@@ -801,14 +939,23 @@ class Interp:
                 for x in (k[1], k[2]):
                     if x[0] == "term" and x[1][0] in ("len", "len@"):
                         cands.add(x)
+        def lens(t):
+            if isinstance(t, tuple):
+                if len(t) == 2 and t[0] == "term" and isinstance(t[1], tuple) and t[1] and t[1][0] in ("len", "len@"):
+                    cands.add(t)
+                for x in t:
+                    if isinstance(x, tuple):
+                        lens(x)
+        lens(old)
+        lens(new)
         keep = []
-        for c in cands:
+        for c in sorted(cands, key=repr):
             ok_old = (c in old_bounds) if old_bounds is not None else self.decide_le(st, old, c)
             if ok_old and self.decide_le(st, new, c):
                 keep.append(c)
         lo_old, lo_new = self.lower_const(st, old), self.lower_const(st, new)
         # forget everything known about the previous incarnation of W
-        for k in [k for k in st.facts if wl in (k[1:3] if k[0] in ("lt", "eq") else ()) or k == w]:
+        for k in [k for k in st.facts if k == w or self.mentions(k, w)]:
             del st.facts[k]
         for c in keep:
             st.facts[("lt", c, wl)] = ("bool", False)
